@@ -124,6 +124,7 @@ type Obs struct {
 	After    []afterRec       `json:"after"`
 	Text     map[string]any   `json:"text,omitempty"`
 	FS       map[string]any   `json:"fs,omitempty"`
+	HL       map[string]any   `json:"hl,omitempty"`
 
 	// not serialised: for replay files and finding matching
 	hist     []Cmd
